@@ -15,8 +15,9 @@ Case (JSON-able):
   threads   list (per thread) of calls; call = {'tag', 'kind', 'args', 'script'}
             kind: ev (getattr(model, name)(tag)) | trig (model.trigger(name, tag)) | add_transition |
                   add_states | set_state | remove_model
-            script: {str(k): {'sub': [call…], 'raise': bool}} — what the k-th callback invocation of this
-                  call does (re-entrant calls from inside the callback, then return / raise)
+            script: {str(k): {'sub': [call…], 'raise': False | 'exc' | 'base' | 'kbd'}} — what the k-th callback
+                  invocation of this call does (re-entrant calls from inside the callback, then return / raise an
+                  Exception subclass / a custom BaseException / a KeyboardInterrupt subclass)
   schedule  list of thread ids (one per scheduling decision); missing tail = run the last thread on
 """
 import itertools
@@ -31,6 +32,17 @@ from transitions.extensions import locking as _locking
 
 class UserErr(Exception):
     pass
+
+
+class UserBase(BaseException):
+    """an application BaseException (e.g. a shutdown signal): not an Exception subclass"""
+
+
+class KbdLike(KeyboardInterrupt):
+    """KeyboardInterrupt-like"""
+
+
+RAISE_KINDS = {True: UserErr, 'exc': UserErr, 'base': UserBase, 'kbd': KbdLike}
 
 
 FLAT_STATES = ['A', 'B', 'C']
@@ -175,7 +187,7 @@ class Run(object):
         t = c.point()
         c.emit((2, t, a + 1, 0))
         if sc and sc.get('raise'):
-            raise UserErr('scripted %d/%d' % (tag, k))
+            raise RAISE_KINDS[sc['raise']]('scripted %d/%d' % (tag, k))
         return True
 
     def invoke(self, call):
